@@ -233,7 +233,7 @@ AugGetV(v, j) ==
          IF key \in DOMAIN v.o THEN v.o[key]
          ELSE IF key = "size" THEN IntV(Cardinality(DOMAIN v.o)) ELSE Missing
     [] IsScalar(v) ->
-         IF ToStr(j) = "size" THEN IntV(Len(ToStr(v))) ELSE Missing   \* bytes = chars for ASCII
+         IF ToStr(j) = "size" THEN IntV(Len(ToStr(v))) ELSE Missing   \* characters (strings may be given as code-point sequences)
     [] OTHER -> Missing
 
 \* try_find(value, steps)
